@@ -653,7 +653,7 @@ fn gen_args(rng: &mut Rng, cfg: &GenCfg, sw: &Swarm, names: &mut Names, c: &mut 
                 a.require_equals = true;
             }
             if sw.delimiters && rng.chance(1, 3) {
-                a.value_delimiter = Some(if cfg.hostile_names && rng.chance(1, 5) { *rng.pick(&['\u{3001}', '\u{b7}', '\u{a7}']) } else { *rng.pick(&[',', ':', ';']) });
+                a.value_delimiter = Some(if cfg.hostile_names && rng.chance(1, 3) { *rng.pick(&['\u{3001}', '\u{b7}', '\u{a7}']) } else { *rng.pick(&[',', ':', ';']) });
             }
             if sw.terminators && a.is_multiple_values() && rng.chance(1, 2) {
                 a.value_terminator = Some((*rng.pick(&[";", "end", "--"])).to_string());
@@ -667,6 +667,10 @@ fn gen_args(rng: &mut Rng, cfg: &GenCfg, sw: &Swarm, names: &mut Names, c: &mut 
             if sw.defaults && rng.chance(1, 3) {
                 let k = if a.is_multiple_values() { rng.urange(1, 2) } else { 1 };
                 a.default_values = (0..k).map(|_| B::s(&gen_value_for(rng, &a.parser))).collect();
+                // an OS-string / path default need not be UTF-8
+                if matches!(a.parser, ValParser::Os | ValParser::Path) && rng.chance(1, 3) {
+                    a.default_values[0] = B(b"caf\xe9.conf".to_vec());
+                }
             }
             if matches!(a.parser, ValParser::Possible(_)) && rng.chance(1, 4) {
                 a.ignore_case = true;
@@ -716,6 +720,14 @@ fn gen_args(rng: &mut Rng, cfg: &GenCfg, sw: &Swarm, names: &mut Names, c: &mut 
         gen_positionals(rng, cfg, sw, names, c, n_pos, has_subs, &headings);
     }
 
+    // generators and help renderers see required options too (without the relation vocabulary)
+    if !cfg.parse_features && !c.args.is_empty() && rng.chance(1, 3) {
+        let i = rng.usize(c.args.len());
+        let a = &mut c.args[i];
+        if !a.global && !a.is_positional() && !matches!(a.action, Action::Help | Action::HelpShort | Action::HelpLong | Action::Version) {
+            a.required = true;
+        }
+    }
     // ---- relations
     if cfg.parse_features && sw.relations && c.args.len() >= 2 {
         let ids: Vec<String> = c.args.iter().map(|a| a.id.clone()).collect();
@@ -921,7 +933,7 @@ fn gen_positionals(rng: &mut Rng, cfg: &GenCfg, sw: &Swarm, names: &mut Names, c
             a.allow_negative_numbers = true;
         }
         if sw.delimiters && rng.chance(1, 5) {
-            a.value_delimiter = Some(',');
+            a.value_delimiter = Some(if cfg.hostile_names && rng.chance(1, 3) { '\u{3001}' } else { ',' });
         }
         if sw.defaults && !a.required && rng.chance(1, 4) {
             a.default_values = vec![B::s(&gen_value_for(rng, &a.parser))];
